@@ -6,6 +6,7 @@ require (
 	github.com/Oneledger/protocol v0.0.0
 	github.com/btcsuite/btcd v0.20.1-beta
 	github.com/ethereum/go-ethereum v1.10.8
+	github.com/pkg/errors v0.9.1
 	github.com/tendermint/go-amino v0.14.1
 	github.com/tendermint/iavl v0.13.3
 	github.com/tendermint/tendermint v0.33.3
